@@ -233,6 +233,13 @@ def session_specs(tier):
         spec['grammar'] = gr
         spec['prince'] = D.PRINCE
         specs.append(spec)
+    # Markov levels next to each other in the order of the run (what a low --coverage gives): a quit inside one of them saves a position at which
+    # the next pre-terminal is a Markov level again.  What happens inside the interrupted level is C15's; here: no pre-terminal is lost
+    from . import c15
+    for gr, op in (([('M', .6), ('D1', .4)], [(1, .5), (2, .25), (3, .125)]), ([('D1', .3), ('M', .7)], [(1, .5), (2, .5), (3, .125)])):
+        spec = dict(t0)
+        spec.update(grammar=gr, prince=D.PRINCE, omen=c15.omen(c15.OMEN_X, op))
+        specs.append(spec)
     return specs
 
 
@@ -286,13 +293,13 @@ def explore_session(td, spec, acc, flags=()):
         return ['harness: uninterrupted run does not cover the reference language (C02/C04 territory)']
     total_guesses = sum(e[2] for e in U.events if e[0] == 'pt')
     seen = {}
-    frontier = [(None, None, 0)]     # (sav_raw, max_prob, depth)
+    frontier = [(None, None, 0, None)]     # (sav_raw, max_prob, depth, .omn bytes)
     maxdepth = 3
     while frontier:
-        sav_raw, p, depth = frontier.pop(0)
+        sav_raw, p, depth, omn = frontier.pop(0)
         # all quit moments from this state
         for j in range(0, total_guesses + 1):
-            S.set_session(td, sav_raw, None)
+            S.set_session(td, sav_raw, omn)
             argv = ['-r', 'v'] + (['--load'] if sav_raw is not None else list(flags))
             A = S.run_guesser(td, argv, quit_after=j)
             acc.evals += 1
@@ -326,12 +333,12 @@ def explore_session(td, spec, acc, flags=()):
                     break
             for m in msgs[:2]:
                 fails.append('quit_after=%d from state %r -> saved %r: %s' % (j, p, newp, m))
-            key = A.sav.get('guessing_info.max_probability')
+            key = (tuple(sorted((k, v) for k, v in A.sav.items() if k.startswith('guessing_info'))), A.omn)
             if key not in seen:
                 seen[key] = True
                 acc.states += 1
                 if depth + 1 < maxdepth:
-                    frontier.append((A.sav_raw, newp, depth + 1))
+                    frontier.append((A.sav_raw, newp, depth + 1, A.omn))
             if len(fails) > 6:
                 return fails
     # UUID refusal
